@@ -8,7 +8,7 @@ open Lc3V Sim SimM SimInstr C10
 
 /-- `return_from` without the OS-image hypothesis: any handler (OS or user-installed) whose body kept R6, the saved SP and
     the two stack cells of its entry, ending in an RTI fetched from plain memory -/
-theorem handler_returns (s x t : Sim) (ret : W) (keepR0 : Bool) (E : W → Prop)
+theorem handler_returns {Q : DevHandler → Prop} (QS : QuietSet Q) (s x t : Sim) (q_t : Q t.dev) (ret : W) (keepR0 : Bool) (E : W → Prop)
     (h1 : (entrySp s - 1).toNat < IO_START) (h2 : (entrySp s - 2).toNat < IO_START)
     (m2 : x.memAt (entrySp s - 2) = Word.ofData ret) (m1 : x.memAt (entrySp s - 1) = Word.ofData s.psr)
     (mo : ∀ a, a ≠ entrySp s - 1 → a ≠ entrySp s - 2 → x.memAt a = s.memAt a)
@@ -20,9 +20,9 @@ theorem handler_returns (s x t : Sim) (ret : W) (keepR0 : Bool) (E : W → Prop)
     (tr6 : (t.reg R6).data = (x.reg R6).data) (tro : ∀ r, r ≠ R6 → (keepR0 = false → r ≠ 0) → t.reg r = x.reg r)
     (tctl : ctl t = ctl x) (tmem : ∀ a : W, a.toNat < IO_START → ¬ E a → t.memAt a = x.memAt a)
     (hE1 : ¬ E (entrySp s - 1)) (hE2 : ¬ E (entrySp s - 2)) :
-    ∃ f, fetchExec t = (.ok (), f) ∧ Returned s f ret keepR0 E ∧ f.dev = t.dev ∧ (∀ r, r ≠ R6 → f.reg r = t.reg r) := by
+    ∃ f, Sim.step t = (.ok (), f) ∧ Returned s f ret keepR0 E ∧ f.dev = t.dev ∧ (∀ r, r ≠ R6 → f.reg r = t.reg r) := by
   have e1 : (t.reg R6).data + 1 = entrySp s - 1 := by rw [tr6, r6]; bv_omega
-  obtain ⟨f, hx, fpc, fpsr, fmem, ffn, fk, fu, fro, fdev, ffl, fir, fmc⟩ := step_rti t tns tsup tl hd
+  obtain ⟨f, hx, fpc, fpsr, fmem, ffn, fk, fu, fro, fdev, ffl, fir, fmc, _⟩ := step_rti QS t q_t tns tsup tl hd
     (by rw [tr6, r6]; exact h2) (by rw [e1]; exact h1)
   rw [e1, tmem _ h1 hE1, m1] at fpsr fk fu
   rw [tr6, r6, tmem _ h2 hE2, m2] at fpc
@@ -51,13 +51,13 @@ theorem handler_returns (s x t : Sim) (ret : W) (keepR0 : Bool) (E : W → Prop)
 /-- **an interrupt whose handler restores what it uses is invisible to the interrupted program.**
     `s` is the machine at an instruction boundary (after the poll) at which the interrupt `(v, p)` is taken
     (`p` above the current priority, C10.gate); `x` is the machine at the handler's first instruction; the handler body
-    is any `k` fetch-execute steps from `x` to `t` that leave R6's value, every other register, the control state
+    is any `k` public steps from `x` to `t` (the handler may itself use the devices, as long as their poll stays quiet: `Q`) that leave R6's value, every other register, the control state
     (saved SP, flags, frame depth, internal registers, MCR) and all memory below the I/O page outside `E` as they
     were at `x`, and stop at an `RTI` in plain memory, still in supervisor mode.  Then after the RTI the machine is back
     at the interrupted instruction with PC, PSR (condition codes, privilege, priority), every register, both stack
     pointers, flags and all memory below the I/O page outside `E` and the two supervisor-stack cells exactly as
     at `s` -/
-theorem interrupt_transparent (s : Sim) (v : BitVec 8) (p : Nat) (E : W → Prop) (k : Nat) (t : Sim)
+theorem interrupt_transparent {Q : DevHandler → Prop} (QS : QuietSet Q) (s : Sim) (v : BitVec 8) (p : Nat) (E : W → Prop) (k : Nat) (t : Sim)
     (hs : s.flags.strict = false) (hgate : p > PSR.priority s.psr)
     (hvirt : realIntVect (0x100 + v.setWidth 16) = none ∨ s.flags.realTraps = true)
     (h1 : (entrySp s - 1).toNat < IO_START) (h2 : (entrySp s - 2).toNat < IO_START) :
@@ -67,7 +67,7 @@ theorem interrupt_transparent (s : Sim) (v : BitVec 8) (p : Nat) (E : W → Prop
        SimInstr.decode (t.memAt t.pc).data = .ok .rti → (t.reg R6).data = (x.reg R6).data →
        (∀ r, r ≠ R6 → t.reg r = x.reg r) → ctl t = ctl x →
        (∀ a : W, a.toNat < IO_START → ¬ E a → t.memAt a = x.memAt a) →
-       ¬ E (entrySp s - 1) → ¬ E (entrySp s - 2) →
+       ¬ E (entrySp s - 1) → ¬ E (entrySp s - 2) → Q t.dev →
        ∃ f, feN (k + 1) x = (.ok (), f) ∧ Returned s f s.pc true E ∧ f.dev = t.dev) := by
   have hv : (0x100 + v.setWidth 16 : W).toNat < IO_START := by
     have := v.isLt
@@ -87,8 +87,8 @@ theorem interrupt_transparent (s : Sim) (v : BitVec 8) (p : Nat) (E : W → Prop
     · rw [h]; simp only [he]; split <;> rfl
     · simp only [h, Bool.not_true, Bool.false_eq_true, if_false, he]
   refine ⟨x, hx, hpv, hprio p rfl, hpc, ?_⟩
-  intro ft tns tsup tl hdr tr6 tro tctl tmem hE1 hE2
-  obtain ⟨f, ff, ret, fdev, _⟩ := handler_returns s x t s.pc true E h1 h2 m2 m1 mo r6 ro hss hfn hf hir hmcr
+  intro ft tns tsup tl hdr tr6 tro tctl tmem hE1 hE2 q_t
+  obtain ⟨f, ff, ret, fdev, _⟩ := handler_returns QS s x t q_t s.pc true E h1 h2 m2 m1 mo r6 ro hss hfn hf hir hmcr
     tns tsup tl hdr tr6 (fun r h6 _ => tro r h6) tctl tmem hE1 hE2
   exact ⟨f, by rw [feN_add k 1 ft, feN_succ 0 ff]; rfl, ret, fdev⟩
 
